@@ -21,10 +21,29 @@ import (
 
 const c05Block = 64 // configurations per case index
 
-func c05Count(d int) int { // 4^(2(d+1)+1)
+// behaviours: 0 absent, 1 returns, 2 panics, 3 Exit(distinct non-zero status), 4 Exit(0)
+const c05Kinds = 5
+const behExit0 = 4
+
+func c05IsExit(b int) bool  { return b == drive.BehExit || b == behExit0 }
+func c05Raises(b int) bool  { return b == drive.BehPanic || c05IsExit(b) }
+func c05Code(b, i int) int {
+	if b == behExit0 {
+		return 0
+	}
+	return 10 + i
+}
+func c05Beh(b, i int) drive.Beh {
+	if b == behExit0 {
+		return drive.Beh{Kind: drive.BehExit, Code: 0}
+	}
+	return drive.Beh{Kind: b, Code: 10 + i}
+}
+
+func c05Count(d int) int { // 5^(2(d+1)+1)
 	n := 1
 	for i := 0; i < 2*(d+1)+1; i++ {
-		n *= 4
+		n *= c05Kinds
 	}
 	return n
 }
@@ -49,7 +68,7 @@ func init() {
 		ID:        "C05",
 		Title:     "Before/Action/After run in nesting order; Afters always run; Exit comes last",
 		Technique: "bounded-exhaustive runtime monitor: event log of every hook, exit stub and recovered panic value of the real library, judged by an executable flow model; sample re-run in real child processes with the real os.Exit",
-		Rule: "a case is a chain of d+1 nested commands and one behaviour out of {absent, returns, panics with a distinct pointer value, calls Exit with a distinct status} for each Before, the addressed Action and each After: " +
+		Rule: "a case is a chain of d+1 nested commands and one behaviour out of {absent, returns, panics with a distinct pointer value, calls Exit with a distinct non-zero status, calls Exit(0)} for each Before, the addressed Action and each After: " +
 			"ALL combinations for d<=2 (quick) / d<=3 (thorough), random combinations for d=4,5; thorough additionally re-runs sampled combinations in child processes without any stub (real os.Exit), observing the flushed event log, " +
 			"the exit status and the panic on stderr. Oracle (DESIGN 3.6): exact event sequence, each hook at most once, exit exactly once, as the last event and with the status of the most recently raised Exit, " +
 			"the re-panicked value identical (pointer equality) to the most recently raised one, nil return otherwise. Configurations whose Action is absent are unclaimed (the library prints help instead) and only counted. " +
@@ -95,7 +114,7 @@ func (k c05Cfg) names() []string {
 }
 
 func (k c05Cfg) describe() string {
-	kinds := []string{"absent", "returns", "panics", "Exit"}
+	kinds := []string{"absent", "returns", "panics", "Exit", "Exit(0)"}
 	var ps []string
 	for i, n := range k.names() {
 		s := n + ":" + kinds[k.beh[i]]
@@ -110,8 +129,8 @@ func (k c05Cfg) describe() string {
 func c05FromNumber(d, n int) c05Cfg {
 	k := c05Cfg{d: d, beh: make([]int, 2*(d+1)+1)}
 	for i := range k.beh {
-		k.beh[i] = n % 4
-		n /= 4
+		k.beh[i] = n % c05Kinds
+		n /= c05Kinds
 	}
 	return k
 }
@@ -130,7 +149,7 @@ func (k c05Cfg) model() (events []string, last int) {
 			continue
 		}
 		events = append(events, names[i])
-		if b == drive.BehPanic || b == drive.BehExit {
+		if c05Raises(b) {
 			last = i
 			raised = true
 			break
@@ -140,7 +159,7 @@ func (k c05Cfg) model() (events []string, last int) {
 	if !raised {
 		ai := d + 1
 		events = append(events, names[ai])
-		if k.beh[ai] == drive.BehPanic || k.beh[ai] == drive.BehExit {
+		if c05Raises(k.beh[ai]) {
 			last = ai
 		}
 	}
@@ -152,7 +171,7 @@ func (k c05Cfg) model() (events []string, last int) {
 			continue
 		}
 		events = append(events, names[hi])
-		if b == drive.BehPanic || b == drive.BehExit {
+		if c05Raises(b) {
 			last = hi
 		}
 	}
@@ -163,11 +182,11 @@ func (k c05Cfg) tree() *drive.Cmd {
 	var root, cur *drive.Cmd
 	for i := 0; i <= k.d; i++ {
 		n := &drive.Cmd{ID: i, Aliases: []string{fmt.Sprintf("c%d", i)}, Prog: &Prog{}, Parent: cur}
-		n.Before = drive.Beh{Kind: k.beh[i], Code: 10 + i}
+		n.Before = c05Beh(k.beh[i], i)
 		hi := k.d + 1 + (k.d - i) + 1
-		n.After = drive.Beh{Kind: k.beh[hi], Code: 10 + hi}
+		n.After = c05Beh(k.beh[hi], hi)
 		if i == k.d {
-			n.Action = drive.Beh{Kind: k.beh[k.d+1], Code: 10 + k.d + 1}
+			n.Action = c05Beh(k.beh[k.d+1], k.d+1)
 		} else {
 			n.Action = drive.Beh{Kind: drive.BehReturn} // never addressed
 		}
@@ -210,7 +229,7 @@ func runC05(c *core.Ctx) {
 			d := 4 + c.R.Intn(2)
 			k := c05Cfg{d: d, beh: make([]int, 2*(d+1)+1)}
 			for j := range k.beh {
-				k.beh[j] = c.R.Intn(4)
+				k.beh[j] = c.R.Intn(c05Kinds)
 				if c.R.Intn(3) == 0 {
 					k.beh[j] = drive.BehReturn
 				}
@@ -224,7 +243,7 @@ func runC05(c *core.Ctx) {
 		d := c.R.Intn(4)
 		k := c05Cfg{d: d, beh: make([]int, 2*(d+1)+1)}
 		for j := range k.beh {
-			k.beh[j] = c.R.Intn(4)
+			k.beh[j] = c.R.Intn(c05Kinds)
 		}
 		if k.beh[d+1] == drive.BehAbsent {
 			k.beh[d+1] = drive.BehExit
@@ -255,8 +274,8 @@ func c05One(c *core.Ctx, k c05Cfg, family string) {
 	case last < 0:
 		want = append(want, "RET")
 		c.Inc("end_nil")
-	case k.beh[last] == drive.BehExit:
-		want = append(want, fmt.Sprintf("EXIT%d", 10+last))
+	case c05IsExit(k.beh[last]):
+		want = append(want, fmt.Sprintf("EXIT%d", c05Code(k.beh[last], last)))
 		c.Inc("end_exit")
 	default:
 		c.Inc("end_panic")
@@ -270,7 +289,7 @@ func c05One(c *core.Ctx, k c05Cfg, family string) {
 		if o.Err != nil || o.Pan != nil || o.Exit != nil {
 			c.Violation(fmt.Sprintf("expected a nil return; err=%v panic=%v", o.Err, o.Pan), nil, nil)
 		}
-	case k.beh[last] == drive.BehExit:
+	case c05IsExit(k.beh[last]):
 		if o.Exits != 1 || o.Pan != nil {
 			c.Violation(fmt.Sprintf("expected exactly one exit; exits=%d panic=%v", o.Exits, o.Pan), nil, nil)
 		}
@@ -315,6 +334,8 @@ func c05Child(args []string) int {
 				panic(fmt.Sprintf("PANICVALUE-%s", names[i]))
 			case drive.BehExit:
 				cli.Exit(10 + i)
+			case behExit0:
+				cli.Exit(0)
 			}
 		}
 	}
@@ -368,8 +389,8 @@ func c05RealProcess(c *core.Ctx, k c05Cfg) {
 	switch {
 	case last < 0:
 		want = append(want, "RET")
-	case k.beh[last] == drive.BehExit:
-		wantStatus = 10 + last
+	case c05IsExit(k.beh[last]):
+		wantStatus = c05Code(k.beh[last], last)
 	default:
 		wantStatus = 2 // Go runtime: unrecovered panic
 	}
